@@ -570,6 +570,13 @@ def check_ellipse(fx, R):
             want_pose = [('return', ('new:Ellipse', pn + '.position', ('.block', pn + '.covariance', 0, 0), 'sigmaScale'))]
             want_pos = [('return', ('new:Ellipse', pn + '.position', pn + '.covariance', 'sigmaScale'))]
             is_pose = 'Pose2D' in g['sig']
+            # the sigma scale ranges over the REALS of (0, 10] (2.4477 is the 95 % ellipse): it must travel as a floating value from the caller to the radii
+            sg = next((p_ for p_ in g['params'] if 'sigma' in p_['name'].lower()), None)
+            if sg is not None:
+                tsg = sg.get('t') or {}
+                R.check(tsg.get('c') == 'fp', 'K4', 'uncertaintyEllipse(%s):sigma-type' % ('Pose2D' if is_pose else 'Position2D'), 'the sigma scale is taken as `%s`: a caller\'s 2.4477 (or 0.5) is converted '
+                        'implicitly and silently truncated to 2 (or 0) before it reaches the radii, so R diag(major^2, minor^2) R^T / sigma^2 reproduces the covariance only for integral scales (the quantifier has every '
+                        'scale in (0, 10])' % tsg.get('s'), 'sigma scale is a floating parameter', fx.rel(g['loc']), 'E-INT')
             ok = st2 == (want_pose if is_pose else want_pos)
             if ok:
                 R.holds('K4', 'uncertaintyEllipse(%s)' % ('Pose2D' if is_pose else 'Position2D'), 'position, xy covariance block, sigma', fx.rel(g['loc']), 'E-SIB')
